@@ -42,3 +42,21 @@ def validate(module, cfg_text, traces, scratch, tag, *, env=None, timeout=3600, 
             )
         accepted += acc[-1]["n"]
     return rejects, accepted, results
+
+
+def selftest(module, cfg_text, corrupted, scratch, tag, env=None):
+    """Binding self-test: every deliberately corrupted record/trace must be REJECTED by the monitor (with the expected
+    clause when one is given).  corrupted: list of (record, expected_clause_or_None, description)."""
+    import copy
+
+    if not corrupted:
+        return 0
+    recs = [copy.deepcopy(c[0]) for c in corrupted]
+    rej, acc, _ = validate(module, cfg_text, recs, scratch, tag + "_selftest", env=env)
+    got = {r["tid"]: r["clause"] for r in rej}
+    for k, (_, want, what) in enumerate(corrupted):
+        if k not in got:
+            raise core.MachineryError(f"binding self-test failed: the monitor {module} ACCEPTED a corrupted record ({what})")
+        if want is not None and got[k] != want:
+            raise core.MachineryError(f"binding self-test: corrupted record ({what}) rejected with {got[k]}, expected {want}")
+    return len(corrupted)
